@@ -26,7 +26,11 @@ printer, compiled by the REAL compiler from the working tree) and every in-range
   python==C  the two parsed values for the same abstract message are compared with each other.
 
 Comparison is on parsed JSON VALUES with strict types (true is not 1, 1.0 is not 1), never on
-white space or on the wording of anything.
+white space or on the wording of anything.  Programs the compiler rejects, generated C that gcc
+rejects and generated Python that does not import are other properties' subjects: they are counted
+and skipped - but a run in which more than half of the programs are unusable (or nothing was
+evaluated) raises instead of passing.  No known finding is routed here (the former to_json /
+byte-array TypeError is fixed in the tree; it would now be reported as a violation).
 
 Inputs: structured families aimed at what the property quantifies over - every integer width
 1..64 signed and unsigned as field / array element / alias (printf conversion classes, values
@@ -283,6 +287,7 @@ class Shape:
         self.widths: set = set()
         self.depth = 0
         self.maxname = 0
+        self.namelens: set = set()
         self.nkeys = 0
         self._msg(m, 1, False, True)
 
@@ -298,9 +303,22 @@ class Shape:
         nums = [f.num for f in m.fields]
         if nums != sorted(nums):
             self.feats.add("declared-out-of-number-order")
+        if len(m.fields) == 1:
+            self.feats.add("single-field-msg")
+        if len(m.fields) >= 128:
+            self.feats.add("keys>=128")
+        if sum(1 for f in m.fields if is_enum(f.type)) >= 2:
+            self.feats.add("two-enum-fields-in-one-msg")
+        if in_array and not m.fields:
+            self.feats.add("empty-msg-in-array")
+        by_num = sorted(m.fields, key=lambda f: f.num)
+        for k, f in enumerate(by_num):
+            if isinstance(f.type, G.TRef) and isinstance(f.type.d, G.MsgDef) and len(by_num) > 1:
+                self.feats.add("nested-msg-" + ("first" if k == 0 else "last" if k == len(by_num) - 1 else "middle") + "-by-number")
         for f in m.fields:
             self.nkeys += 1
             self.maxname = max(self.maxname, len(f.name))
+            self.namelens.add(len(f.name))
             if self._type(f.type, depth, False, "field"):
                 sub_enum = True
         if sub_enum and not own_enum:
@@ -328,6 +346,14 @@ class Shape:
                 self.feats.add("array-2d")
             if t.cap >= 200:
                 self.feats.add("big-array")
+            if t.cap >= 9000:
+                self.feats.add("huge-array")
+            if isinstance(t.elem, G.TByte):
+                self.feats.add("byte-array")
+                if depth > 1:
+                    self.feats.add("byte-array-in-nested-msg")
+                if in_array:
+                    self.feats.add("byte-array-2d")
             return self._type(t.elem, depth, True, "elem" if pos != "alias" else "alias-elem")
         elif isinstance(t, G.TRef):
             d = t.d
@@ -602,7 +628,7 @@ def fam_arrays(rng: random.Random, wc: WidthCursor) -> Tuple[G.Schema, List[str]
     for _ in range(4):
         elems.append(G.TUint(wc.next()))
         elems.append(G.TInt(wc.next()))
-    a_s = [sb.alias(G.TInt(wc.next())), sb.alias(G.TUint(wc.next())), sb.alias(rng.choice([G.TBool(), G.TByte()]))]
+    a_s = [sb.alias(G.TInt(wc.next())), sb.alias(G.TUint(wc.next())), sb.alias(G.TBool()), sb.alias(G.TByte())]
     a_arr = [sb.alias(G.TArray(rng.choice([G.TInt(wc.next()), G.TUint(wc.next()), G.TByte(), G.TBool(), G.TRef(en), G.TRef(inner)]),
                                rng.choice([1, 2, 3, 4, 7]), rng.random() < 0.3)) for _ in range(3)]
     a_2d = sb.alias(G.TArray(G.TRef(rng.choice(a_arr)), rng.choice([1, 2, 3]), rng.random() < 0.3))
@@ -617,7 +643,7 @@ def fam_arrays(rng: random.Random, wc: WidthCursor) -> Tuple[G.Schema, List[str]
             if rng.random() < 0.6:
                 ts.append(rng.choice([G.TUint(8), G.TInt(16), G.TBool(), G.TInt(wc.next()), G.TRef(en)]))
         # aliases used directly as fields
-        ts.append(G.TRef(rng.choice(a_s)))
+        ts += [G.TRef(a) for a in rng.sample(a_s, 2)]
         ts.append(G.TRef(rng.choice(a_arr + [a_2d])))
         rng.shuffle(ts)
         sb.fields(m, ts)
@@ -1053,9 +1079,9 @@ class PyModule:
 # ===================================================================== the check
 def tier_plan(tier: str) -> Dict[str, Any]:
     if tier == "quick":
-        return {"programs": {"widths": 5, "arrays": 10, "names": 6, "nesting": 12, "enums": 12, "imports": 4, "random": 36},
+        return {"programs": {"widths": 5, "arrays": 14, "names": 8, "nesting": 14, "enums": 16, "imports": 6, "random": 48},
                 "rand_values": 2, "batch": 28}
-    return {"programs": {"widths": 30, "arrays": 110, "names": 60, "nesting": 120, "enums": 130, "imports": 40, "random": 420},
+    return {"programs": {"widths": 40, "arrays": 160, "names": 90, "nesting": 160, "enums": 190, "imports": 60, "random": 600},
             "rand_values": 4, "batch": 48}
 
 
@@ -1091,9 +1117,11 @@ def check(run: common.Run, drv: common.Driver, rng: random.Random, tier: str) ->
     order.insert(0, "widths")
     widths_seen: Dict[str, set] = {}
     _reported.clear()
+    _uid[0] = 0
+    _width_variant[0] = 0
     timing: Dict[str, Any] = {"generate_compile_values": 0.0, "python_checks": 0.0, "waiting_for_gcc_and_driver": 0.0, "c_checks": 0.0,
                               "slowest_program": (0.0, "", 0)}
-    state = {"py_c_equal": 0, "compile_errors": []}
+    state: Dict[str, Any] = {"py_c_equal": 0, "compile_errors": [], "namelens": set()}
     with R.Scratch("bpv-c16-") as sc, cf.ThreadPoolExecutor(16) as pool:
         for flags in CFLAG_SETS:
             C.runtime_object(sc, flags)
@@ -1140,6 +1168,8 @@ def check(run: common.Run, drv: common.Driver, rng: random.Random, tier: str) ->
             timing["generate_compile_values"] += time.time() - t0
             for (p, values, kinds, cases, cflags, fut) in jobs:
                 t1 = time.time()
+                for sh in p.shapes.values():
+                    state["namelens"] |= sh.namelens
                 py_parsed = check_python(run, p, values, kinds, rng, widths_seen)
                 t2 = time.time()
                 res = fut.result()
@@ -1150,14 +1180,25 @@ def check(run: common.Run, drv: common.Driver, rng: random.Random, tier: str) ->
                 timing["waiting_for_gcc_and_driver"] += t3 - t2
                 timing["c_checks"] += t4 - t3
                 timing["slowest_program"] = max(timing["slowest_program"], (round(t4 - t1, 2), p.tags[0], p.idx))
+    dist0 = run.coverage.get("distribution", {})
+    unusable = sum(dist0.get(k, 0) for k in ("skipped:compiler-rejected-program", "skipped:generated-c-does-not-compile",
+                                               "skipped:python-module-does-not-load"))
+    if state["compile_errors"]:
+        run.notes["compiler_rejected_programs"] = state["compile_errors"]
+    if run.coverage["evaluations"] == 0 or unusable * 2 > len(order):
+        # nothing (or too little) could be observed: that is a failure of the check, not a pass
+        first = (state["compile_errors"] or run.notes.get("c_build_errors") or run.notes.get("python_load_errors") or [{}])[0]
+        raise RuntimeError(f"C16 exploration could not observe the property: {unusable} of {len(order)} generated programs were unusable "
+                           f"(compiler rejected / gcc failed / python module did not load); first: {str({k: v for k, v in first.items() if k != 'files'})[:400]}")
     cov = {}
     for k, ws in widths_seen.items():
         cov[k] = {"count": len(ws), "missing": [w for w in range(1, 65) if w not in ws]}
     run.notes["width_coverage"] = cov
     run.notes["python_equals_c_cases"] = state["py_c_equal"]
+    dist = run.coverage.get("distribution", {})
+    run.notes["features_not_hit_in_this_run"] = [f for f in EXPECTED_EVERY_RUN if "feature:" + f not in dist]
+    run.notes["field_name_lengths_hit"] = sorted(state["namelens"])
     run.notes["timing_s"] = {k: (round(v, 1) if isinstance(v, float) else v) for k, v in timing.items()}
-    if state["compile_errors"]:
-        run.notes["compiler_rejected_programs"] = state["compile_errors"]
 
 
 def note_case(run: common.Run, p: Program, m: G.MsgDef, v, lang: str, mode: str, extra: Tuple = ()) -> None:
@@ -1165,6 +1206,16 @@ def note_case(run: common.Run, p: Program, m: G.MsgDef, v, lang: str, mode: str,
     vf = value_flags(m, v)
     run.evaluated()
     run.nontrivial((lang, mode, sorted(sh.feats), sorted(vf), min(sh.depth, 9), min(sh.maxname // 8, 6), extra))
+
+
+EXPECTED_EVERY_RUN = [
+    "byte-array", "byte-array-in-nested-msg", "byte-array-2d", "two-enum-fields-in-one-msg", "empty-msg", "empty-top", "empty-msg-in-array",
+    "single-field-msg", "nested-msg-first-by-number", "nested-msg-middle-by-number", "nested-msg-last-by-number",
+    "enumless-msg-containing-enum-msg", "enum-declared-in-msg", "imported-enum", "imported-msg", "array-2d", "array-of-msg", "array-of-alias",
+    "alias-scalar", "alias-array", "big-array", "declared-out-of-number-order", "ext-msg", "ext-array",
+    "bool@alias", "byte@alias", "bool@elem", "bool@field", "byte@field", "enum8@field", "enum16@field", "enum32@field", "enum64@field",
+    "enum8@elem", "enum16@elem", "enum32@elem", "enum64@elem",
+]
 
 
 def record_distribution(run: common.Run, p: Program, m: G.MsgDef, widths_seen: Dict[str, set]) -> None:
@@ -1242,8 +1293,9 @@ def check_python(run: common.Run, p: Program, values, kinds, rng: random.Random,
                 except Exception:
                     held = None
                 if held != v:
-                    run.count("skipped:python-message-does-not-hold-assigned-value")
-                    continue
+                    # assignment goes through generated code (enum properties): the JSON is still compared
+                    # with the value that was SET (the property's observation point)
+                    run.count("note:python-message-reads-back-other-values-than-assigned")
                 note_case(run, p, m, v, "python", "assigned", (kinds[mi][vi],))
                 run.count("case:python-assigned")
                 got = py_observe(run, p, m, v, obj, exp, "assigned", full=(vi < 2 or kinds[mi][vi] == "rand"))
@@ -1303,7 +1355,9 @@ def py_observe(run: common.Run, p: Program, m: G.MsgDef, v, obj, exp: Obj, mode:
             continue
         d = diff(exp, val)
         if d is not None:
-            violation(run, p, m, v, "python", f"{name} states other values: {d}", exp, clip(text), {"call": name, "message_state": mode})
+            violation(run, p, m, v, "python", f"{name} states other values: {d}", exp, clip(text),
+                      {"call": name, "message_state": mode, "note": "all value patterns of a message are assigned to separate live "
+                       "instances of the class (in the order min,max,neg1,alt,alt2,edge,rand,rot,rand..) before the first is serialised"})
             continue
         if name == "to_json()":
             result = val
@@ -1350,6 +1404,8 @@ def check_c(run: common.Run, p: Program, values, kinds, cases: List[CCase], cfla
         text = r["text"].decode("latin-1")
         if ci == 0:
             run.sample({"language": "c", "message": p.prefix + G.c_name(m), "json": clip(text, 300)}, limit=4)
+        if r["slen"] > 65535:
+            run.count("c-text-longer-than-64KiB")
         if r["guard"] or r["og"]:
             violation(run, p, m, held, "c", "Json wrote outside the text it returned (guard zone of %s overwritten)" %
                       ("the struct" if r["guard"] else "the output buffer"), exp, clip(text), extra)
